@@ -96,6 +96,12 @@ func c12Census(ctx *core.Ctx, rep *core.Report) {
 			rep.Violate("C12|dir_not_imported|"+d, "lint package lints/"+d+" is not blank-imported by v3/zlint.go: its lints are not linked into a default build", art(d))
 		}
 	}
+	// a lint whose registration sits in a file that a default build does not compile is defined in the tree but linked nowhere
+	for _, nb := range cen.NotBuilt {
+		rep.Inc("validated")
+		rep.Violate("C12|census|registration_not_in_default_build|"+nb.Name, fmt.Sprintf("%s registers %q from its init(), but %s: the lint is in the sources and in no registry of a default build", nb.File, nb.Name, nb.Why),
+			map[string]interface{}{"op": "census", "file": nb.File, "lint": nb.Name})
+	}
 	// every lint_*.go registers something
 	for _, f := range cen.FilesNoReg {
 		rep.Violate("C12|file_without_registration|"+f, "lint file "+f+" contains no registration call", art(f))
